@@ -5,6 +5,8 @@ SPEC = {'id': 'C09',
  'theorems': [('Snowflake.Props.C09', 'Snowflake.Encap.C09.roundtrip'),
               ('Snowflake.Props.C09', 'Snowflake.Encap.C09.fragmentation_independent'),
               ('Snowflake.Props.C09', 'Snowflake.Encap.C09.roundtrip_fragmented'),
+              ('Snowflake.Props.C09', 'Snowflake.Encap.C09.encoding_unambiguous'),
+              ('Snowflake.Props.C09', 'Snowflake.Encap.C09.streams_concatenate'),
               ('Snowflake.Props.C09', 'Snowflake.Encap.C09.padding_exact'),
               ('Snowflake.Props.C09', 'Snowflake.Encap.C09.maxData_fits'),
               ('Snowflake.Props.C09', 'Snowflake.Encap.C09.maxData_within_one'),
